@@ -87,6 +87,7 @@ type Profile struct {
 	ForceFlush      bool
 	FlushMargins    []int
 	EnumFlush       bool // thorough: enumerate every subset of small flushes
+	NoForceFlush    bool // small caches without the forced tick: the cache may fill up with dirty pages inside a statement
 	BigInsertOnly   bool // growth runs: mostly inserts into one table
 	LongLog         int  // > 0: once the first table has GiantRows rows, whole-table UPDATEs follow until this many log records were written
 	LastStmtsOnly   int  // > 0: log-cut images are placed in the last so many statements only
@@ -1587,7 +1588,7 @@ func (g *gen) pickKnobs() Knobs {
 	if len(pf.CacheCaps) > 0 {
 		k.CacheCap = pf.CacheCaps[g.r.Intn(len(pf.CacheCaps))]
 	}
-	if k.CacheCap > 0 && k.CacheCap < 1000 && (pf.Prop != "C15" || g.r.Chance(0.5)) {
+	if k.CacheCap > 0 && k.CacheCap < 1000 && !pf.NoForceFlush && (pf.Prop != "C15" || g.r.Chance(0.5)) {
 		// C15 withholds ticks in half of its runs so that dirty pages pile up until the cache refuses
 		k.ForceFlush = true
 	}
